@@ -326,6 +326,7 @@ structure PgState where
   prompts : List Bytes := []
   resources : List Bytes := []
   templates : List Bytes := []
+  roots : List Bytes := []         -- the CLIENT's registry (listed whole)
 deriving Inhabited
 
 def PgState.get (p : PgState) : RKind → List Bytes
@@ -333,6 +334,7 @@ def PgState.get (p : PgState) : RKind → List Bytes
   | .listPrompts => p.prompts
   | .listResources => p.resources
   | .listResourceTemplates => p.templates
+  | .listRoots => p.roots
   | _ => []
 
 def PgState.set (p : PgState) (k : RKind) (l : List Bytes) : PgState :=
@@ -341,6 +343,7 @@ def PgState.set (p : PgState) (k : RKind) (l : List Bytes) : PgState :=
   | .listPrompts => { p with prompts := l }
   | .listResources => { p with resources := l }
   | .listResourceTemplates => { p with templates := l }
+  | .listRoots => { p with roots := l }
   | _ => p
 
 def pCursor : String → Option Cursor
@@ -352,7 +355,7 @@ def pCursor : String → Option Cursor
 
 /-- where a cursor stands relative to the registry, for the clause text -/
 def cursorPos (keys : List Bytes) : Cursor → String
-  | .first => "a request without cursor"
+  | .first => if keys.isEmpty then "a request without cursor against an EMPTY registry" else "a request without cursor"
   | .garbage => "a cursor that does not decode"
   | .after uid =>
     let n := keys.length
@@ -376,7 +379,7 @@ def showPage (r : ROut × Option Bytes) : String :=
 def memberName (k : RKind) : String :=
   match k with
   | .listTools => "tools" | .listPrompts => "prompts" | .listResources => "resources"
-  | .listResourceTemplates => "resourceTemplates" | _ => "?"
+  | .listResourceTemplates => "resourceTemplates" | .listRoots => "roots" | _ => "?"
 
 /-! ## contexts in which content is decoded -/
 
@@ -429,6 +432,9 @@ structure DState where
   eofFed : Bool := false           -- harness closed the input after the fed frames
   eofSeen : Bool := false          -- Read has reported the end of the stream
   pg : PgState := {}               -- paged lists: the registries of the server under test
+  logging : Bool := false          -- the connection stands behind a `LoggingTransport`
+  mlog : List LogEntry := []       -- the model's log since the last `io.log`
+  passed : List Passed := []       -- monitor bookkeeping: what the harness saw pass through the wrapper
 
 def showWriteOut : WriteOut → String
   | .nothing => "nothing"
@@ -581,6 +587,20 @@ def clauseBody : Clause → String
   | .rejectedF2_02 => "batch_exactly_once: a well-formed batch containing a notification is rejected as a duplicate id; the read error tears the session down (F2)"
   | .rejected02 => "batch_exactly_once: a well-formed batch is rejected by Read"
   | .dtWrite => "decode_total: ioConn.Write panicked"
+  | .refRefused => "content_roundtrip: CompleteReference.MarshalJSON refused a consistent reference"
+  | .refChanged => "content_roundtrip: a CompleteReference did not come back as itself from marshal → unmarshal"
+  | .refInconsistentWritten =>
+    "content_roundtrip: CompleteReference.MarshalJSON wrote an inconsistent reference (unknown type, or a member of the other type)"
+  | .refInconsistentAccepted =>
+    "content_roundtrip: CompleteReference.UnmarshalJSON accepted an inconsistent reference (unknown type, or a member of the other type)"
+  | .refReencDiffers => "content_roundtrip: an accepted CompleteReference is not written again as its encoding"
+  | .logDiffers p l =>
+    s!"encode_decode_preserves: LoggingTransport: the log ({l} entries) does not show the {p} messages that passed through the connection, in order, each as `read: ` / `write: ` + an encoding of that message"
+  | .cwCrash c => s!"ndjson_roundtrip: concurrent Writes on one connection: ioConn.Write {crashText c}"
+  | .cwGarbled n =>
+    s!"ndjson_roundtrip: concurrent Writes on one connection (a stream that takes a Write in pieces): {n} line(s) of the stream are no JSON value — the frames of two writers ran into each other, neither message reaches the peer"
+  | .cwLost m =>
+    s!"ndjson_roundtrip: concurrent Writes on one connection: the message {showMsg m} is not among the lines of the stream"
   | .badFrame => "ndjson_roundtrip: the bytes written are not one compact payload followed by a single LF"
   | .writtenDiffers => "batch_roundtrip: the message written differs from the message given"
   | .dtNdReader .panic => "decode_total: the reader of an io connection panicked on input bytes"
@@ -699,6 +719,26 @@ def out19 (d : DState) (model : String) (c : Option Clause) : DState × Verdict 
 def outAny (d : DState) (model : String) (c : Option Clause) : DState × Verdict :=
   (d, { model := model, violated := c.map (clauseText d.pid) })
 
+def pLogEntries (fuel : Nat) (ts : List String) (acc : List (Option LogEntry)) : Option (List (Option LogEntry)) :=
+  match fuel, ts with
+  | _, [] => some acc.reverse
+  | 0, _ => none
+  | fuel + 1, t :: ts' =>
+    if t.startsWith "!" then pLogEntries fuel ts' (none :: acc)
+    else if t == "re" then pLogEntries fuel ts' (some .readErr :: acc)
+    else if t == "we" then pLogEntries fuel ts' (some .writeErr :: acc)
+    else if t == "r" || t == "w" then
+      match pJ ts' with
+      | some (v, r') => pLogEntries fuel r' (some (if t == "r" then .read v else .write v) :: acc)
+      | none => none
+    else none
+
+def showRefErr : RefErr → String
+  | .unknownType => "unknown-type" | .promptWithURI => "prompt-with-uri"
+  | .resourceWithName => "resource-with-name" | .notStruct => "other"
+
+def showRef (r : CRef) : String := s!"ok s{hexB r.typ} s{hexB r.name} s{hexB r.uri}"
+
 def stepWire (d : DState) (toks : List String) (impl : String) : DState × Verdict :=
   let itoks := words impl
   let toks := match toks with
@@ -707,6 +747,11 @@ def stepWire (d : DState) (toks : List String) (impl : String) : DState × Verdi
   -- `rev`: the harness rendered the members of every object in reverse order (text level; not modelled)
   let toks := match toks with
     | k :: "rev" :: r => if revOps.contains k then k :: r else toks
+    | _ => toks
+  -- `EncodeIndent` (`encind <layout> <msg>`): prefix and indent are insignificant white space (the harness reads the
+  -- text as JSON); the value written is `EncodeMessage`'s, and the same monitor judges it
+  let toks := match toks with
+    | "encind" :: _ :: r => "encdec" :: r
     | _ => toks
   match toks with
   | ["reset"] => ({ pid := d.pid, also := d.also }, { model := "ok" })
@@ -953,20 +998,20 @@ def stepWire (d : DState) (toks : List String) (impl : String) : DState × Verdi
   | "r.pg.add" :: method :: r =>
     match rkindOf method, pMany pStr r with
     | some k, (uids, []) =>
-      if k.isPaged then ({ d with pg := d.pg.set k (uids.foldl (fun l u => keyInsert u l) (d.pg.get k)) }, { model := "ok" }) else bad d
+      if k.isListed then ({ d with pg := d.pg.set k (RegOp.apply (d.pg.get k) (.add uids)) }, { model := "ok" }) else bad d
     | _, _ => bad d
   | "r.pg.rm" :: method :: r =>
     match rkindOf method, pMany pStr r with
     | some k, (uids, []) =>
-      if k.isPaged then ({ d with pg := d.pg.set k ((d.pg.get k).filter (fun u => !uids.contains u)) }, { model := "ok" }) else bad d
+      if k.isListed then ({ d with pg := d.pg.set k (RegOp.apply (d.pg.get k) (.rm uids)) }, { model := "ok" }) else bad d
     | _, _ => bad d
   | ["r.pg.list", method, cur] =>
     -- the list member of the result AS WRITTEN ON THE WIRE: arr <n> <uids> nc <uid|-> / null / missing / error
     match rkindOf method, pCursor cur with
     | some k, some c =>
-      if !k.isPaged then bad d else
+      if !k.isListed || (!k.isPaged && c != .first) then bad d else
       let keys := d.pg.get k
-      let page := listPage k (fun u => .str u) keys d.pg.ps c
+      let page := listReg k (fun u => .str u) keys d.pg.ps c
       let obs : PgObs := match itoks.head? with
         | some "null" => .null
         | some "missing" => .missing
@@ -979,6 +1024,24 @@ def stepWire (d : DState) (toks : List String) (impl : String) : DState × Verdi
     match cap.toNat? with
     | some n => ({ pid := d.pid, also := d.also, io := { outCap := n }, mon := { outCap := n } }, { model := "ok" })
     | none => bad d
+  | ["io.new", cap, "log"] =>
+    match cap.toNat? with
+    | some n => ({ pid := d.pid, also := d.also, io := { outCap := n }, mon := { outCap := n }, logging := true }, { model := "ok" })
+    | none => bad d
+  | ["io.log"] =>
+    -- what the LoggingTransport wrote since the last `io.log`: `log <n> (r <J> | w <J> | re | we | !<hex>)*`
+    if !d.logging then bad d else
+    let showE : LogEntry → String
+      | .read v => "r " ++ showJ v | .write v => "w " ++ showJ v | .readErr => "re" | .writeErr => "we"
+    let model := " ".intercalate (["log", toString d.mlog.length] ++ d.mlog.map showE)
+    let obs : LogObs := match itoks with
+      | "log" :: n :: rest =>
+        (match pLogEntries (rest.length + 1) rest [] with
+          | some l => if n == toString l.length then .entries l else .other
+          | none => .other)
+      | _ => .other
+    let (d', v) := out19 d model (logMonitor d.passed obs)
+    ({ d' with mlog := [], passed := [] }, v)
   | "io.feed" :: r =>
     match pJ r with
     | some (w, []) => ({ d with io := { d.io with wire := d.io.wire ++ [w] }, mon := ioFeed d.mon w }, { model := "ok" })
@@ -998,13 +1061,92 @@ def stepWire (d : DState) (toks : List String) (impl : String) : DState × Verdi
     -- monitor (on the implementation's observation only)
     let (mon', verd) := ioRead d.mon (pReadObs impl)
     let viol := verd.select (pidOf d.pid) (d.also.contains "C03")
+    let d := if d.logging then
+        { d with mlog := d.mlog ++ [(logRead out).2],
+                 passed := d.passed ++ (match pReadObs impl with
+                   | .msg (some m) _ => [Passed.read m] | .err .. => [Passed.readErr] | _ => []) }
+      else d
     ({ d with io := io', mon := mon' }, { model := model, violated := viol.map (clauseText d.pid) })
+  | "io.cw" :: _pieces :: r =>
+    -- several goroutines write at the same time; observed: the lines of the stream, sorted
+    match pMany pMsg r with
+    | (msgs, []) =>
+      let (io', outs) := cwRun d.io msgs
+      let lines := (cwLines outs).map showJ
+      let sorted := (lines.toArray.qsort (fun a b => a < b)).toList
+      let model := if outs.contains .panic then "panic"
+        else " ".intercalate (["cw", toString sorted.length] ++ sorted)
+      let obs : CwObs := match crashOf impl with
+        | some c => .crash c
+        | none =>
+          match itoks with
+          | "cw" :: n :: rest =>
+            let rec go (fuel : Nat) (ts : List String) (acc : List (Option JVal)) : Option (List (Option JVal)) :=
+              match fuel, ts with
+              | _, [] => some acc.reverse
+              | 0, _ => none
+              | fuel + 1, t :: ts' =>
+                if t.startsWith "!" then go fuel ts' (none :: acc)
+                else match pJ (t :: ts') with
+                  | some (v, r') => go fuel r' (some v :: acc)
+                  | none => none
+            (match go (rest.length + 1) rest [] with
+              | some l => if n == toString l.length then .lines l else .other
+              | none => .other)
+          | _ => .other
+      let mon' := { d.mon with mopen := msgs.foldl (fun o m => (monWrite o m).1) d.mon.mopen }
+      let viol := if d.pid == "C19" then cwMonitor d.mon.outCap msgs obs else
+        (match obs with | .crash _ => some .writePanic02 | _ => none)
+      ({ d with io := io', mon := mon' }, { model := model, violated := viol.map (clauseText d.pid) })
+    | _ => bad d
+  | ["ref.rt", t, n, u] =>
+    -- `json.Marshal(&CompleteReference{…})`, then `json.Unmarshal` of the text: `refused <class>` / `ok <J> | ok s s s` / `ok <J> | err <class>`
+    match pStr [t], pStr [n], pStr [u] with
+    | some (t, []), some (n, []), some (u, []) =>
+      let r : CRef := ⟨t, n, u⟩
+      let model := match encodeRef r with
+        | .error e => "refused " ++ showRefErr e
+        | .ok v => "ok " ++ showJ v ++ " | " ++ (match decodeRef v with
+          | .ok r' => showRef r' | .error e => "err " ++ showRefErr e)
+      let obs : RefRtObs := match impl.splitOn " | " with
+        | [a] => if a.startsWith "refused " then .refused else .other
+        | [a, b] => (match pJ ((words a).drop 1), words b with
+          | some (v, []), ["ok", t', n', u'] => (match pStr [t'], pStr [n'], pStr [u'] with
+            | some (t', []), some (n', []), some (u', []) => .written v (some ⟨t', n', u'⟩)
+            | _, _, _ => .other)
+          | some (v, []), "err" :: _ => .written v none
+          | _, _ => .other)
+        | _ => .other
+      out19 d model (refRtMonitor r obs)
+    | _, _, _ => bad d
+  | "ref.dec" :: r =>
+    -- `json.Unmarshal` of a JSON value into a CompleteReference, then `json.Marshal` of the result
+    match pJ r with
+    | some (v, []) =>
+      let model := match decodeRef v with
+        | .error e => "err " ++ showRefErr e
+        | .ok r => showRef r ++ " | " ++ (match encodeRef r with | .ok w => showJ w | .error e => "refused " ++ showRefErr e)
+      let obs : RefDecObs := match impl.splitOn " | " with
+        | [a] => if a.startsWith "err " then .rejected else .other
+        | [a, b] => (match words a with
+          | ["ok", t', n', u'] => (match pStr [t'], pStr [n'], pStr [u'] with
+            | some (t', []), some (n', []), some (u', []) =>
+              .accepted ⟨t', n', u'⟩ (match pJ (words b) with | some (w, []) => some w | _ => none)
+            | _, _, _ => .other)
+          | _ => .other)
+        | _ => .other
+      out19 d model (refDecMonitor obs)
+    | _ => bad d
   | "io.write" :: r =>
     match pMsg r with
     | some (m, []) =>
       let (io', out) := opWrite d.io m
       let (mon', verd) := ioWrite d.mon m (pWriteObs impl)
       let viol := verd.selectWrite (pidOf d.pid)
+      let d := if d.logging then
+          { d with mlog := d.mlog ++ (logWrite m out).2.toList,
+                   passed := d.passed ++ (if impl == "panic" || impl == "write-error" || impl == "hang" then [] else [Passed.write m]) }
+        else d
       ({ d with io := io', mon := mon' }, { model := showWriteOut out, violated := viol.map (clauseText d.pid) })
     | _ => bad d
   | "nd.split" :: r =>
